@@ -83,7 +83,7 @@ class Op:
 
 class HistoryExplorer:
     def __init__(self, o, make_world, ops, probes, world_key_parts, max_depth=30, max_states=400, on_renorm=None,
-                 rebuild=None):
+                 rebuild=None, shard=(0, 1)):
         self.o = o
         self.make_world = make_world
         self.ops = ops
@@ -93,6 +93,10 @@ class HistoryExplorer:
         self.max_states = max_states
         self.on_renorm = on_renorm
         self.rebuild = rebuild
+        # (k, n): the same search run in n processes.  Every process executes all state-changing operations
+        # (updates, renormalisations: they discover the states), and the k-th n-th of the other operations on
+        # every state; together the n processes cover every (state, operation) transition.
+        self.shard = shard
         self.fresh = None  # callable(world) -> probe digests computed in a process without any call history
         self.states = {}
         self.probe_digests = {}
@@ -138,7 +142,9 @@ class HistoryExplorer:
             self.maxdepth_seen = max(self.maxdepth_seen, depth)
             if depth >= self.max_depth:
                 continue
-            for op in self.ops:
+            for op_i, op in enumerate(self.ops):
+                if op.kind in ("call", "invalid") and op_i % self.shard[1] != self.shard[0]:
+                    continue
                 w = copy.deepcopy(world)
                 before = {p: snap(w[p]) for p in self.parts}
                 g_before = global_state()
@@ -200,10 +206,16 @@ class HistoryExplorer:
                     # I5: results depend on the arguments only - the live, updated objects must give what freshly
                     # constructed objects with the same parameters give
                     live = self.run_probes(w)
-                    fresh = self.run_probes(self.rebuild(w))
-                    o.check("I5 updated objects behave like freshly built ones: " + label, live == fresh,
-                            detail={k_: (live[k_], fresh[k_]) for k_ in live if live[k_] != fresh[k_]},
-                            key="I5-stale-after-update:" + op.name, token=("I5", op.name))
+                    try:
+                        fresh = self.run_probes(self.rebuild(w))
+                    except Exception as e:  # noqa  (a shell left inconsistent by an earlier, reported, transition)
+                        fresh = None
+                        o.check("I5 the updated shells can be rebuilt from their own attributes: " + label, False,
+                                detail="%s: %s" % (type(e).__name__, str(e)[:150]), key="I5-rebuild-failed:" + op.name)
+                    if fresh is not None:
+                        o.check("I5 updated objects behave like freshly built ones: " + label, live == fresh,
+                                detail={k_: (live[k_], fresh[k_]) for k_ in live if live[k_] != fresh[k_]},
+                                key="I5-stale-after-update:" + op.name, token=("I5", op.name))
                 nk = self.key(w)
                 if nk in self.states:
                     smp = o.notes.setdefault("_samples", [])
